@@ -74,6 +74,9 @@ def gen_line_for_split(rng):
         pieces = []
         for _ in range(rng.randint(1, 4)):
             body = "".join(rng.choice("ab =:,./-%+@_*?[]{}~#;&|<>()^\t\n'") for _ in range(rng.randint(0, 4)))
+            if rng.random() < 0.2:   # bytes that are live inside double quotes: the model must refuse them there
+                i = rng.randint(0, len(body))
+                body = body[:i] + rng.choice(["$", "$x", "`", "\\", "!", "\\\""]) + body[i:]
             k = rng.random()
             if k < 0.4:
                 pieces.append('"' + body + '"')
